@@ -63,17 +63,17 @@ def legs(quick):
     D = {"workers": 4, "heap": "4g"}
     design = [dict(D, module="I_Maglev", cfg="MC_I_Maglev_5.cfg", thorough_cfg="MC_I_Maglev_7.cfg")]
     if not quick:
-        for cfg in ("MC_F_Maglev_5_4.cfg", "MC_F_Maglev_11_3.cfg", "MC_F_Maglev_13_2.cfg"):
+        for cfg in ("MC_F_Maglev_5_4.cfg", "MC_F_Maglev_11_2.cfg", "MC_F_Maglev_13_2.cfg"):
             design.append(dict(D, module="F_Maglev", cfg=cfg, coverage=False, thorough_timeout=1500))
     out = [dict(BASE, design=design,
                 gen={"module": "Gen_Maglev", "cfg": "Gen_5.cfg", "thorough_cfg": "Gen_7.cfg", "workers": 4,
-                     "max": 800, "thorough_max": 40000, "thorough_timeout": 1200},
-                n_random=(100, 3000)),
+                     "max": 800, "thorough_max": 15000, "thorough_timeout": 1200},
+                n_random=(100, 1500)),
            dict(BASE, design=[], gen=None, n_random=(0, 0),
                 driver={"cmd": "maglev", "env": {"VERIF_MAGLEV_SIZES": "60" if quick else "0"}})]
     if not quick:
         out.append(dict(BASE, design=[],
-                        gen={"module": "Gen_Maglev", "cfg": "Gen_5_4.cfg", "workers": 4, "max": 40000, "timeout": 1200,
+                        gen={"module": "Gen_Maglev", "cfg": "Gen_5_4.cfg", "workers": 4, "max": 10000, "timeout": 1200,
                              "thorough_timeout": 1200},
                         n_random=(0, 0)))
     return out
